@@ -88,7 +88,7 @@ var e18 = new(big.Int).Exp(big.NewInt(10), big.NewInt(18), nil)
 
 func decOf(raw *big.Int) sdkmath.LegacyDec { return sdkmath.LegacyNewDecFromBigIntWithPrec(raw, 18) }
 
-func coinsStr(cs sdk.Coins) string {
+func daCoinsStr(cs sdk.Coins) string {
 	if len(cs) == 0 {
 		return "-"
 	}
@@ -101,7 +101,7 @@ func coinsStr(cs sdk.Coins) string {
 
 func (p daParams) line() string {
 	return fmt.Sprintf("thr=%s rf=%s epoch=%d sft=%s frac=%s cp=%d pp=%d rrp=%d vrp=%d pub=%s inv=%s",
-		p.thr, p.rf, p.epoch, p.sft, p.frac, p.cp, p.pp, p.rrp, p.vrp, coinsStr(p.pub), coinsStr(p.inv))
+		p.thr, p.rf, p.epoch, p.sft, p.frac, p.cp, p.pp, p.rrp, p.vrp, daCoinsStr(p.pub), daCoinsStr(p.inv))
 }
 
 func (p daParams) real() datypes.Params {
@@ -189,7 +189,7 @@ type daSnap struct {
 	heightH int64
 }
 
-func idxStr(ix []int64) string {
+func daIdxStr(ix []int64) string {
 	if len(ix) == 0 {
 		return "-"
 	}
@@ -306,12 +306,12 @@ func (s daSnap) line(w *daWorld) string {
 	list("items", xs)
 	xs = nil
 	for _, r := range s.invs {
-		xs = append(xs, fmt.Sprintf("%s/%s:%s", r.uri, r.sender, idxStr(r.idx)))
+		xs = append(xs, fmt.Sprintf("%s/%s:%s", r.uri, r.sender, daIdxStr(r.idx)))
 	}
 	list("invs", xs)
 	xs = nil
 	for _, r := range s.proofs {
-		xs = append(xs, fmt.Sprintf("%s/%s:%s", r.uri, r.sender, idxStr(r.idx)))
+		xs = append(xs, fmt.Sprintf("%s/%s:%s", r.uri, r.sender, daIdxStr(r.idx)))
 	}
 	list("proofs", xs)
 	xs = nil
@@ -869,7 +869,7 @@ func daHistory(e *Env, zk *daZk, h int) {
 					ix = append(ix, int64(r.N(max(it.shards, 1))))
 				}
 			}
-			e.In("invalid %s %s %s", sender, uri, idxStr(ix))
+			e.In("invalid %s %s %s", sender, uri, daIdxStr(ix))
 			_, err, p := c.Exec(&datypes.MsgSubmitInvalidity{Sender: w.accOf[sender].Addr.String(), MetadataUri: uri, Indices: ix})
 			cls := class(err, p)
 			already := false
@@ -1182,7 +1182,7 @@ func (w *daWorld) block(pre daSnap, dt int64, cur *daSnap) (active []string, asg
 		for _, v := range active {
 			ix := datypes.ShardIndicesForValidator(sdk.ValAddress(w.accOf[v].Addr), int64(thr), int64(it.shards))
 			asg[u][v] = ix
-			ext = append(ext, fmt.Sprintf("assign %s %s %s", u, v, idxStr(ix)))
+			ext = append(ext, fmt.Sprintf("assign %s %s %s", u, v, daIdxStr(ix)))
 		}
 	}
 	if len(active) == 0 {
